@@ -160,6 +160,7 @@ def r8_1(ctx: Ctx) -> RuleResult:
                        "its twin",
                        construct=f"{cls.name}.{base} twin missing")
     # (2) normal forms
+    twins.register_one_yield(f for f in ctx.repo.functions.values() if f.parent is None)
     for s, a in twin_pairs(ctx):
         ns = twins.normalise(s.node)
         na = twins.normalise(a.node)
